@@ -299,6 +299,7 @@ def punch_text(elements, phases, gases, kin, sscomps, surfaces):
     for c in sscomps:
         put("S_S_" + c, 'S_S("%s")' % c)
     for s in surfaces:
+        put("EDLW_" + s, 'EDL("water", "%s")' % s)
         for e in elements:
             put("SURF_%s_%s" % (e, s), 'SURF("%s", "%s")' % (e, s))
             put("EDL_%s_%s" % (e, s), 'EDL("%s", "%s")' % (e, s))
